@@ -59,7 +59,7 @@ const TEXT: &str = "forced";
 
 /// Run the events either all in one batch (in this order) or one per batch.
 /// Returns the outcome and, for the batched form, whether the batch was realised.
-fn execute(events: &[E], batched: bool, res: &mut CaseResult) -> Option<(Outcome, bool, Vec<usize>)> {
+fn execute(events: &[E], batched: bool, explicit_ids: bool, res: &mut CaseResult) -> Option<(Outcome, bool, Vec<usize>)> {
     hooks::set_recording(true);
     let (conn, h) = session::open_default(Reflex::default());
     let mut conn = match conn {
@@ -69,7 +69,9 @@ fn execute(events: &[E], batched: bool, res: &mut CaseResult) -> Option<(Outcome
             return None;
         }
     };
-    let (n_ch, m_ch, helper) = match (conn.open_channel(None), conn.open_channel(None), conn.open_channel(None)) {
+    // channels with ids chosen by the caller (ahead of the allocation counter) or by the library
+    let (idn, idm) = if explicit_ids { (Some(7), Some(2040)) } else { (None, None) };
+    let (n_ch, m_ch, helper) = match (conn.open_channel(idn), conn.open_channel(idm), conn.open_channel(None)) {
         (Ok(a), Ok(b), Ok(c)) => (a, b, c),
         _ => {
             res.inconclusive("open_channel failed");
@@ -405,10 +407,15 @@ pub fn run(rc: &mut RunCtx) {
         v
     } else {
         rc.note("exhaustive_over", json!("every set of <= 4 events with at least one server close and one client request (request variants included) x every order inside one batch"));
-        sets.clone()
+        let mut v = sets.clone();
+        // every set twice, so that each also runs with explicit channel ids (odd positions)
+        v = v.into_iter().flat_map(|s| vec![s.clone(), s]).collect();
+        v
     };
-    for set in chosen {
-        let id = format!("{:?}", set).replace(' ', "");
+    for (si, set) in chosen.into_iter().enumerate() {
+        // half of the sets run on channels opened with explicit ids
+        let explicit = si % 2 == 1;
+        let id = format!("{:?}{}", set, if explicit { "+explicit-ids" } else { "" }).replace(' ', "");
         if !rc.mine(&id) {
             continue;
         }
@@ -418,7 +425,7 @@ pub fn run(rc: &mut RunCtx) {
         let mut serial: BTreeSet<Outcome> = BTreeSet::new();
         let perms = permutations(&set);
         for p in &perms {
-            if let Some((o, _, _)) = execute(p, false, &mut res) {
+            if let Some((o, _, _)) = execute(p, false, explicit, &mut res) {
                 serial.insert(o);
             }
         }
@@ -435,7 +442,7 @@ pub fn run(rc: &mut RunCtx) {
             let mut tries = 0;
             loop {
                 tries += 1;
-                match execute(p, true, &mut res) {
+                match execute(p, true, explicit, &mut res) {
                     Some((o, realised, tokens)) => {
                         if !realised && tries < 3 {
                             continue;
@@ -474,7 +481,7 @@ pub fn run(rc: &mut RunCtx) {
         if realised_orders == 0 && !res.is_violation() {
             res.inconclusive("no batched order could be realised");
         }
-        res.sample = Some(json!({"events": format!("{:?}", set), "serial_outcomes": serial.iter().map(|o| format!("{:?}", o)).collect::<Vec<_>>(), "realised_batches": compositions}));
+        res.sample = Some(json!({"events": format!("{:?}", set), "explicit_channel_ids": explicit, "serial_outcomes": serial.iter().map(|o| format!("{:?}", o)).collect::<Vec<_>>(), "realised_batches": compositions}));
         rc.end(res);
     }
     hooks::set_recording(false);
